@@ -450,6 +450,14 @@ func (t *Terminfo) TParm(s string, p ...interface{}) string {
 			switch ch {
 			case 'd', 'x', 'X', 'o':
 				ai, stk = stk.PopInt()
+				if ch != 'd' {
+					// printf ignores the sign flags for unsigned
+					// conversions, and adds no prefix to zero
+					f = strings.NewReplacer("+", "", " ", "").Replace(f)
+					if ai == 0 {
+						f = strings.Replace(f, "#", "", 1)
+					}
+				}
 				pb.PutString(fmt.Sprintf(f, ai))
 			case 's':
 				a, stk = stk.PopString()
